@@ -80,6 +80,9 @@ func decodeAgainstRef(max int, pieces [][]byte, previous ...[]byte) (out decodeO
 					}
 				} else {
 					_, _ = src.Write(piece)
+					if producerCommits {
+						src.Commit(len(piece)) // a producer that follows ByteBuffer's Write-then-Commit workflow itself
+					}
 				}
 				fed = append(fed, piece[:n]...)
 				piece = piece[n:]
@@ -162,6 +165,10 @@ func decodeAgainstRef(max int, pieces [][]byte, previous ...[]byte) (out decodeO
 // readFromCap > 0 makes decodeAgainstRef fill the buffer with ByteBuffer.ReadFrom from a buffer of that initial capacity
 // instead of Write (set around a call; the checks are sequential).
 var readFromCap int
+
+// producerCommits makes decodeAgainstRef commit every piece right after writing it (the read area then holds more than the
+// frame being decoded).
+var producerCommits bool
 
 func head(b []byte, n int) []byte {
 	if len(b) > n {
@@ -250,7 +257,7 @@ func splitBytes(t *rapid.T, b []byte, maxPieces int, lbl string) ([][]byte, []in
 
 func TestC07_DecoderVsReference(t *testing.T) {
 	rec := evid.For("C07")
-	rec.SetRule("rapid: byte streams built from 1..5 frames over all header bits x opcode 0..15 x mask x length classes {0,1,125,126,127,65535,65536,max-1,max, non-minimal encodings, declared lengths max+1, 2^31, 2^32, 2^63, 2^64-1 (header lies)}, optionally truncated or followed by arbitrary bytes, or fully arbitrary bytes; each stream fed whole and under a generated split into 1..4 pieces (cuts biased into headers) to FrameCodec.Decode and compared call by call with an independent RFC 6455 parser (frame bytes, accessors, ErrNeedMore iff incomplete, error iff declared>max, exact consumption, bounded capacity); in a quarter of the cases additionally through buffers that held 1..3 (possibly truncated) frames of an earlier session, were decoded from, Reset and given to a new codec, as a re-handshaken Stream does: same outcome required; in a third of the cases additionally with the buffer filled by ByteBuffer.ReadFrom from an initial capacity of 32/128/4096 (ReadFrom never grows the buffer: a decoder that asks for more without making room is reported); plus Encode->Decode round trips; non-trivial = a 16/64-bit length OR a cut inside a frame header OR a declared length above max; distinct = hash of stream+cuts")
+	rec.SetRule("rapid: byte streams built from 1..5 frames over all header bits x opcode 0..15 x mask x length classes {0,1,125,126,127,65535,65536,max-1,max, non-minimal encodings, declared lengths max+1, 2^31, 2^32, 2^63, 2^64-1 (header lies)}, optionally truncated or followed by arbitrary bytes, or fully arbitrary bytes; each stream fed whole and under a generated split into 1..4 pieces (cuts biased into headers) to FrameCodec.Decode and compared call by call with an independent RFC 6455 parser (frame bytes, accessors, ErrNeedMore iff incomplete, error iff declared>max, exact consumption, bounded capacity); in a quarter of the cases additionally through buffers that held 1..3 (possibly truncated) frames of an earlier session, were decoded from, Reset and given to a new codec, as a re-handshaken Stream does: same outcome required; in a third of the cases additionally with the buffer filled by ByteBuffer.ReadFrom from an initial capacity of 32/128/4096 (ReadFrom never grows the buffer: a decoder that asks for more without making room is reported); in a quarter with every piece committed by the producer right after it was written; plus Encode->Decode round trips; non-trivial = a 16/64-bit length OR a cut inside a frame header OR a declared length above max; distinct = hash of stream+cuts")
 	vt.Check(t, 4000, func(t *rapid.T) {
 		max := rapid.SampledFrom([]int{70000, 70000, 300, 125, 65536}).Draw(t, "max")
 		var stream []byte
@@ -313,6 +320,19 @@ func TestC07_DecoderVsReference(t *testing.T) {
 			}
 			classes["filled-with-ReadFrom"] = true
 		}
+		if rapid.IntRange(0, 3).Draw(t, "producerCommits") == 0 {
+			// the same input with every piece committed by the producer as soon as it is written
+			producerCommits = true
+			committed, p5 := decodeAgainstRef(max, pieces)
+			producerCommits = false
+			if p5 != "" {
+				t.Fatalf("split input (max=%d, cuts=%v, %d bytes %x..) with every piece committed by the producer: %s", max, cuts, len(stream), head(stream, 24), p5)
+			}
+			if committed.frames != split.frames || committed.terminal != split.terminal || fmt.Sprint(committed.lens) != fmt.Sprint(split.lens) {
+				t.Fatalf("outcome depends on who commits the bytes: decoder=%+v producer=%+v cuts=%v stream=%x..", split, committed, cuts, head(stream, 24))
+			}
+			classes["committed-by-producer"] = true
+		}
 		if rapid.IntRange(0, 3).Draw(t, "reused") == 0 {
 			// the same input through buffers that served an earlier session
 			var prev []byte
@@ -339,7 +359,7 @@ func TestC07_DecoderVsReference(t *testing.T) {
 		}
 		nt := classes["16bit"] || classes["64bit"] || classes["over-max"] || cutInHeader
 		var cls []string
-		for _, k := range []string{"over-max", "64bit", "16bit", "7bit", "arbitrary", "truncated", "garbage-tail", "reused-buffers", "filled-with-ReadFrom"} {
+		for _, k := range []string{"over-max", "64bit", "16bit", "7bit", "arbitrary", "truncated", "garbage-tail", "reused-buffers", "filled-with-ReadFrom", "committed-by-producer"} {
 			if classes[k] {
 				cls = append(cls, k)
 			}
